@@ -1,4 +1,5 @@
 import SFV.Proofs.Circuit
+import SFV.Proofs.CompareGauss
 
 /-!
 # C04 — every internal circuit reordering respects mode and measurement dependencies
@@ -25,6 +26,13 @@ theorem dag_roundtrip_sem {M : Type} [Monoid M] (f : Cmd → M)
     (hcomm : ∀ a b, ¬ dep a b → f a * f b = f b * f a)
     (l out : List Cmd) (hn : l.Nodup) (h : isLinExt l out = true) : sem f out = sem f l :=
   legal_sem f hcomm (linExt_legal hn h)
+
+/-- … in particular for the physical interpretation of Gaussian circuits: whatever schedule the sort returns, the reordered
+circuit is the same Gaussian channel on first and second moments (`GaussSem.g18`: the documented channel of every Gaussian gate
+class; independent commands commute there by `g18_comm`), for every circuit and every valuation of symbolic parameters -/
+theorem dag_roundtrip_gaussian (θ : Nat → Rat) (l out : List Cmd) (hn : l.Nodup) (h : isLinExt l out = true) :
+    sem (GaussSem.g18 θ) out = sem (GaussSem.g18 θ) l :=
+  legal_sem (GaussSem.g18 θ) (GaussSem.g18_comm θ) (linExt_legal hn h)
 
 /-- **certificate checker.**  A list accepted by `isLegal` has the same commands and keeps all
 dependent pairs in order (used on every list the real code returns). -/
